@@ -1,6 +1,8 @@
 package props
 
 import (
+	"math"
+
 	"github.com/bytedance/gopkg/lang/mcache"
 	"github.com/cloudwego/gopkg/bufiox"
 
@@ -23,12 +25,16 @@ func init() {
 		Rule:       "Each run: one bufiox reader (io.Reader-backed over a simulated Source, or bytes-backed) over a stream with position-dependent content, 1..300 operations from {Next,Peek,Skip,ReadBinary,Release,negative counts} with boundary-valued sizes, a per-run source delivery profile (chunking, zero reads, stall, terminal error kind/offset, data with error), allocator mode and co-tenant; every result is compared with a cursor-over-bytes model, then the stream is drained.",
 		Components: realComponents,
 		Probes: []string{"reader_alloc_or_growth", "release_with_unread_tail", "release_with_nothing_buffered", "request_satisfied_after_100_or_more_reads",
-			"more_than_requested_with_error", "error_at_4096_multiple", "readbinary_larger_than_left", "failure_under_stall", "bytes_reader_growth", "release_with_error_argument"},
+			"more_than_requested_with_error", "error_at_4096_multiple", "readbinary_larger_than_left", "failure_under_stall", "bytes_reader_growth", "release_with_error_argument", "huge_count_after_failure"},
 	})
 }
 
 // sizeAlphabet draws a boundary-valued request size relative to the current situation.
 func pickSize(st *sim.Stream, remaining int, bufHint int) int {
+	if remaining > 1<<20 && st.Chance(1, 2) {
+		// megabyte-scale requests on megabyte-scale streams, leaving a sizeable unread tail
+		return []int{remaining - 5000 - st.Choose(200000), 1<<20 + st.Choose(1<<20), remaining / 2, 300000}[st.Choose(4)]
+	}
 	if bigValuesProfile && st.Chance(1, 3) {
 		return 33000 + st.Choose(30000) // lands in the 64 KiB buffer class
 	}
@@ -55,6 +61,9 @@ func pickSize(st *sim.Stream, remaining int, bufHint int) int {
 }
 
 func streamLen(st *sim.Stream, thorough bool) int {
+	if st.Chance(1, 150) {
+		return 1<<20 + st.Choose(2<<20) // a multi-megabyte stream: buffers beyond every threshold
+	}
 	switch st.Pick(3, 4, 4, 3, 1) {
 	case 0:
 		return st.Choose(65)
@@ -197,6 +206,21 @@ func (sc *readerScenario) step(st *sim.Stream, weights []int) {
 	buffered := 4096
 	if sc.src != nil {
 		buffered = sc.src.Pos - m.pos
+	}
+	if m.sourceErrSeen && !m.stall && st.Chance(1, 6) {
+		// absurd counts are only safe to issue once the reader has reported its source's error
+		// (a healthy reader would try to grow its buffer to that size)
+		huge := []int{math.MaxInt, math.MaxInt - 1, math.MaxInt - m.pos + m.relBase, 1 << 62, math.MaxInt32 + 1}[st.Choose(5)]
+		m.c.Count("probe.huge_count_after_failure")
+		switch st.Choose(3) {
+		case 0:
+			m.Next(huge)
+		case 1:
+			m.Peek(huge)
+		case 2:
+			m.Skip(huge)
+		}
+		return
 	}
 	switch st.Pick(weights...) {
 	case 0:
